@@ -43,13 +43,16 @@ from ..fakes import FakeTransport, hx
 ID = "C04"
 PROP_MODULES = ["WV.Props.C04"]
 TRUSTED = [
-    "transit record layer delivers a prefix of the records sent, whole and in order, then possibly drops (property C06; the "
-    "hypothesis on the channel in the C04 theorems; exercised here with real NaCl)",
+    "XSalsa20-Poly1305 as C06's IdealFor (per direction: only the peer's sealings open under the receive key). The transit record "
+    "layer itself is no longer assumed: the net_* theorems compose the Xfer model with C06's Connection model and hold for every "
+    "byte sequence/chunking/loss schedule at the receiving connection and every C06 operation sequence at the sender's",
     "SHA-256 collision freedom and hashlib's streaming law (Hash.Ideal; identity hash in the driver)",
     "zipstream / zipfile round trip (Zip.Ideal; exercised by the directory cases, compared tree against tree)",
-    "json codec of the ack record; Python repr() for text mode (oracle-only: independent unescape of the printed line)",
+    "json codec of the ack record (AckCodec.Ideal: round trip of {ack: ok, sha256: hex}; real json runs in every case)",
+    "Python repr() for text mode: not modelled (needs CPython's Unicode isprintable tables and the quote-selection rule); oracle-only: "
+    "independent unescape of the printed line must give back the message, no control characters printed",
     "twisted.protocols.basic.FileSender (its CHUNK_SIZE is extracted; its read loop is modelled and compared on every case)",
-    "POSIX rename/open semantics of the sandbox filesystem",
+    "POSIX rename/open('wb') semantics of the sandbox filesystem (the model's positional fileWrite + truncating open)",
 ]
 RULE = ("transit-world transfers: file sizes {0,1,CHUNK±1,4*CHUNK±1,8*CHUNK±1,random<=400kB}, directory trees, text; record-aligned, "
         "random and 1-byte chunkings; receiver attaching its consumer after 0..all records; cut points at every record boundary and "
